@@ -91,6 +91,8 @@ def is_mask(t):
     return is_mask(t.args[1])
   if is_ext_call(t, 'jax.numpy.logical_and', 'jax.numpy.logical_or', 'jax.numpy.logical_not'):
     return True
+  if is_ext_call(t, 'jax.numpy.expand_dims', 'jax.numpy.reshape', 'jax.numpy.squeeze', 'jax.numpy.flip') and t.args[1]:
+    return is_mask(t.args[1][0])           # a mask under a shape-only operation
   return False
 
 
